@@ -101,14 +101,19 @@ func c17Sqrt(r *core.Result, v *big.Int, label string) {
 	}
 }
 
+// c17X: ONE argument variable for the whole sweep, overwritten in place before every call (a caller scanning
+// abscissae does exactly that): nothing the implementation remembers about an earlier call may be tied to it.
+var c17X fp.Element
+
 func c17Point(r *core.Result, xv *big.Int, largest bool) {
-	x := fpFromBig(xv)
-	keep := x
-	in := fmt.Sprintf("GetPointFromX(x=%s, largest=%v)", xv.Text(16), largest)
+	c17X = fpFromBig(xv)
+	keep := c17X
+	in := fmt.Sprintf("GetPointFromX(x=%s, largest=%v) through an argument variable reused for every call", xv.Text(16), largest)
 	var pt *bandersnatch.PointAffine
-	if !guard(r, "c17.panic", "bandersnatch.GetPointFromX", in, func() { pt = bandersnatch.GetPointFromX(&x, largest) }) {
+	if !guard(r, "c17.panic", "bandersnatch.GetPointFromX", in, func() { pt = bandersnatch.GetPointFromX(&c17X, largest) }) {
 		return
 	}
+	x := c17X
 	r.Evals++
 	x2 := ref.MulP(xv, xv)
 	num := ref.SubP(ref.MulP(ref.A, x2), bi(1))
